@@ -187,7 +187,12 @@ struct Worker {
 
 fn spawn_worker(check_name: &str, tier: Tier) -> Worker {
     let exe = std::env::current_exe().expect("current exe");
-    let mut child = Command::new(exe)
+    let mut cmd = Command::new(exe);
+    let so = verif_root().join("build/libzyv_getrandom.so");
+    if so.exists() {
+        cmd.env("LD_PRELOAD", &so).env("VERIF_HASH_SEED", seed().to_string());
+    }
+    let mut child = cmd
         .arg("worker")
         .arg(check_name)
         .arg(tier.name())
